@@ -194,6 +194,12 @@ def main():
     except EYAMLCommandException as ex:
         log.critical(ex, 2)
 
+    # An empty document yields no nodes without any error; that is no match
+    if not discovered_nodes:
+        log.critical(
+            "Required YAML Path does not match any nodes, '{}'."
+            .format(yaml_path), 1)
+
     try:
         for node in discovered_nodes:
             if isinstance(node, (dict, list, CommentedSet)):
